@@ -157,7 +157,12 @@ def atEol (d : Dialect) (s : List Nat) (p : Nat) : Bool :=
   p == s.length || (d.multiline && match s[p]? with | some c => isLineTerm d c | none => false)
 
 /-- §15.10.2.5 RepeatMatcher over the body's result function `f` (which already contains the
-    capture reset in the ES5 dialect).  `fuel` bounds the number of iterations. -/
+    capture reset in the ES5 dialect).  `fuel` bounds the number of iterations.
+    `es5 = true`: an empty iteration with min = 0 fails (step 2.a of the continuation d).
+    `es5 = false` (Go): x{n,m} is n copies and m-n nested options, no check; the unbounded tail
+    (x* = (x+)?, x{n,} = x^(n-1) x+) accepts an empty FIRST iteration and then leaves the loop,
+    while an empty later iteration fails (the program revisits the same (pc, position)) – which is
+    the ES5 rule, hence the switch of the flag in the recursive call. -/
 def repLoop (es5 greedy : Bool) (f : MS → List MS) : Nat → Nat → Option Nat → MS → List MS
   | 0, _, _, _ => []
   | fuel + 1, min, max, x =>
@@ -166,7 +171,8 @@ def repLoop (es5 greedy : Bool) (f : MS → List MS) : Nat → Nat → Option Na
       if es5 then
         (if min = 0 ∧ y.pos = x.pos then [] else repLoop es5 greedy f fuel (min - 1) (max.map (· - 1)) y)
       else
-        (if max = none ∧ min ≤ 1 ∧ y.pos = x.pos then [y] else repLoop es5 greedy f fuel (min - 1) (max.map (· - 1)) y)
+        (if max = none ∧ min ≤ 1 ∧ y.pos = x.pos then [y]
+         else repLoop (decide (max = none ∧ min ≤ 1)) greedy f fuel (min - 1) (max.map (· - 1)) y)
     if min ≠ 0 then iter else if greedy then iter ++ [x] else x :: iter
 
 /-- all ways `r` matches `s` from state `x`, best first.  `gi` = index of r's first group. -/
